@@ -57,6 +57,7 @@ def run_case(case):
     abort = any(st.get("fail") for st in sc["steps"]) and int(case["seed"].split(":")[-1]) % 2 == 0
     # (an older adbd: after a FileSync FAIL the service closes the stream at once instead of reading on to the host's DONE; WRTEs that arrive later are never acknowledged)
     sess.sim.sync_plan.abort_on_fail = abort
+    sess.monitor.pull_answers_close = True
     r = scen.Runner(sess, sc)
     try:
         res = r.run()
